@@ -97,6 +97,38 @@ func runC15(p *eng.Prog, r *eng.Report, tier string) {
 		}
 		c.r.Floor("C15.15", "returns of decoding errors in the ibb handlers", n, 2)
 	}
+	// C15.17 a session id that is in use cannot be opened again: in handleOpen
+	// the registration of the new stream is dominated by "the sid is not in
+	// the routing table" (an unconditional addStream replaces a live stream)
+	if f := c.fn("C15.17", "ibb", "handleOpen"); f != nil {
+		n := 0
+		for _, cl := range f.Calls("ibb.Handler.addStream") {
+			n++
+			c.domAny("C15.17", f, cl, "stream registered for a free session id only", []string{"!commaok(p0.streams[*])", "!commaok(*.streams[*])"})
+		}
+		c.r.Floor("C15.17", "registrations in handleOpen", n, 1)
+	}
+	// C15.16 zero or a negative read buffer limit means "unlimited" (documented,
+	// and what handlePayload's size test implements): SetReadBuffer raises a
+	// limit to the block size only if it is positive
+	if f := c.fn("C15.16", "ibb", "(*Conn).SetReadBuffer"); f != nil {
+		n := 0
+		for _, w := range f.Writes() {
+			if w.RHS == nil {
+				continue
+			}
+			pt, _ := f.Graph().Where(w.Stmt)
+			if !strings.Contains(f.Norm(w.RHS, &pt), "bufio.Writer.Size[") {
+				continue
+			}
+			if k, isField := f.FieldClass(w.LHS); isField && k != "ibb.Conn.maxBufSize" {
+				continue
+			}
+			n++
+			c.domAny("C15.16", f, w.Stmt, "limit raised to the block size", []string{"lt(0,p0)", "!lt(p0,1)", "lt(0,local:p0<int>)", "!lt(local:p0<int>,1)"})
+		}
+		c.r.Floor("C15.16", "clamps in SetReadBuffer", n, 1)
+	}
 	// C15.12 the peer check rests on address equality
 	jidEqualRule(c, "C15.12")
 	// C15.13 every packet is decoded into a fresh zero value: encoding/xml only
@@ -245,8 +277,9 @@ func c15CloseAnswered(c *cx) {
 // that involves the looked-up entry. (An unconditional delete removes the
 // successor's registration: the peer's open is then accepted but handed to
 // nobody.)
-func c15ExpectOwnEntry(c *cx) {
-	id := "C15.9"
+func c15ExpectOwnEntry(c *cx) { c15ExpectOwnEntryAs(c, "C15.9") }
+
+func c15ExpectOwnEntryAs(c *cx, id string) {
 	n := 0
 	for _, f := range c.allFns() {
 		if !strings.HasPrefix(f.Short, "ibb.") || f.Body == nil {
@@ -576,6 +609,33 @@ func c15OpenRegistered(c *cx) {
 		}
 	}
 	c.r.Floor(id, "open requests in ibb.open", n, 1)
+	// key agreement: what is withdrawn is what was registered (rmStream under
+	// another string of the same type - the IQ's id - leaves the half-open
+	// stream routable under its sid)
+	var addKeys []string
+	for _, cl := range f.Calls("ibb.Handler.addStream") {
+		pt, _ := g.Where(cl)
+		if len(cl.Args) >= 1 {
+			addKeys = append(addKeys, f.Norm(cl.Args[0], &pt))
+		}
+	}
+	nk := 0
+	for _, cl := range f.Calls("ibb.Handler.rmStream") {
+		pt, _ := g.Where(cl)
+		if len(cl.Args) != 1 {
+			continue
+		}
+		nk++
+		k := f.Norm(cl.Args[0], &pt)
+		okk := false
+		for _, a := range addKeys {
+			if a == k {
+				okk = true
+			}
+		}
+		c.r.Check(id, f, "key of the withdrawn registration", "K: rmStream is called with the key the stream was registered under", cl.Pos(), okk, "withdraws "+k+", registered "+strings.Join(addKeys, ", "))
+	}
+	c.r.Floor(id, "withdrawals in ibb.open", nk, 1)
 }
 
 // c15BlockBounded: no data packet is larger than the block size. The chain
